@@ -3,6 +3,7 @@
    T <hex>      the created validation of pack.go (validateRFC3339) accepts
    L <hex>      time.Parse(time.RFC3339, _) alone succeeds (the lenient recogniser)
    F y mo d h mi s   time.Date(..., UTC).Format(time.RFC3339) of a valid civil time (INVALID otherwise)
+   S <hex>      digest.FromBytes(..).String() (sha256)
    J <hex>      json.Marshal of a string (escaping)      B <hex>   base64.StdEncoding of bytes
    U <hex>      a string after json.Marshal / Unmarshal (invalid UTF-8 coerced)
    K <fn> <exists> <key 0=full 1=digest 2=namespace 3=file> <failat|-> <at> <subject> <layers> <ann> <config> <config_ann> <store>
@@ -128,6 +129,7 @@ let () =
       if civil_ok (n y) (n mo) (n d) (n h) (n mi) (n s)
       then Printf.printf "%s %s\n" id (hex_of_str (format_rfc3339_utc (n y) (n mo) (n d) (n h) (n mi) (n s)))
       else Printf.printf "%s INVALID\n" id
+    | [id; "S"; h] -> Printf.printf "%s %s\n" id (hex_of_str (digest_of (str_of_hex h)))
     | [id; "J"; h] -> Printf.printf "%s %s\n" id (hex_of_str (json_string (str_of_hex h)))
     | [id; "B"; h] -> Printf.printf "%s %s\n" id (hex_of_str (base64 (str_of_hex h)))
     | [id; "L"; h] -> Printf.printf "%s %s\n" id (if rfc3339_ok_prefix (str_of_hex h) then "1" else "0")
@@ -136,10 +138,14 @@ let () =
     | [id; "K"; f; ex; bd; fa; at; subj; layers; ann; cfg; cann; store; _spec] ->
       let tc = { t_exists = (ex = "1");
                  t_key = (match bd with "0" -> KFull | "1" -> KDigest | "2" -> KNamespace | "3" -> KFile | _ -> failwith "key") } in
+      (* a trailing "d" on the fault token: run with the modelled SHA-256 and show the digest *)
+      let with_digest = String.length fa > 0 && fa.[String.length fa - 1] = 'd' in
+      let fa = if with_digest then String.sub fa 0 (String.length fa - 1) else fa in
+      let h = if with_digest then digest_of else dummy_h in
       let fa = if fa = "-" then None else Some (nat_of_int (int_of_string fa)) in
       let o = { o_subject = odesc_of subj; o_layers = list_of layers; o_ann = ann_of ann;
                 o_config = odesc_of cfg; o_config_ann = ann_of cann } in
-      let (s', r) = pack dummy_marshal dummy_h (fn_of f) tc fa (init_state (store_of store))
+      let (s', r) = pack dummy_marshal h (fn_of f) tc fa (init_state (store_of store))
           (str_of_hex at) o now_placeholder in
       (match r with
        | Err e -> Printf.printf "%s ERR %s EV %s\n" id (show_err e) (show_events s'.s_events)
@@ -148,10 +154,11 @@ let () =
             coerces strings to valid UTF-8); descriptor and events are what Pack handed out *)
          let bytes = json_manifest m in
          let m = san_manifest m in
-         Printf.printf "%s OK %s:%s:%s kind=%s cfg=%s layers=%s subj=%s at=%s ann=%s EV %s SIZE %d BYTES %s\n" id
+         Printf.printf "%s OK %s:%s:%s kind=%s cfg=%s layers=%s subj=%s at=%s ann=%s EV %s SIZE %d BYTES %s DIGEST %s\n" id
            (hex_of_str d.d_mt) (hex_of_str d.d_at) (show_ann d.d_ann)
            (match m.m_kind with KImage -> "I" | KArtifact -> "A")
            (show_odesc m.m_config) (show_list m.m_layers) (show_odesc m.m_subject)
-           (hex_of_str m.m_at) (show_ann m.m_ann) (show_events s'.s_events) (int_of_z d.d_sz) (hex_of_str bytes))
+           (hex_of_str m.m_at) (show_ann m.m_ann) (show_events s'.s_events) (int_of_z d.d_sz) (hex_of_str bytes)
+           (if with_digest then hex_of_str d.d_dg else "-"))
     | [] -> ()
     | _ -> Printf.printf "BADLINE %s\n" l)
